@@ -61,7 +61,7 @@ ASSUMPTIONS = [
     "an upper bound on the kept spike amplitude is not asserted (the property states a lower bound); the maximum is "
     "reported as a margin",
 ]
-BUDGET = {"quick": 560, "thorough": 14000}
+BUDGET = {"quick": 560, "thorough": 24000}
 SHRINK = {"quick": False, "thorough": False}
 WALL_CAP = {"quick": 900, "thorough": 5400}
 
@@ -89,12 +89,6 @@ POW3 = {3 ** k for k in range(1, 16)}
 def _ns_win(wl, si):
     """AGC window length in samples as documented: odd, round(wl / si) to the nearest odd number."""
     return int(np.round(wl / si / 2) * 2 + 1)
-
-
-def _avoid_pow3(ns, wins):
-    while any((ns + w) in POW3 for w in wins):
-        ns += 1
-    return ns
 
 
 def _shifts(probe, nc):
@@ -239,6 +233,16 @@ def _kfilt_wins(case):
     return wins
 
 
+def _st_ns(draw, case):
+    """Batch length 4000..12000; one case in twelve takes a length for which ns + AGC window is a power of three (the
+    gain convolution then runs on an odd FFT size): 3560 / 16682 with the default 3001-sample window."""
+    if draw(st.integers(0, 11)) == 0:
+        cand = sorted({p - w for p in (6561, 19683) for w in _kfilt_wins(case) if 3500 <= p - w <= 17000})
+        if cand:
+            return draw(st.sampled_from(cand))
+    return draw(st.integers(4000, 12000))
+
+
 @st.composite
 def _st_stripe(draw):
     probe = draw(st.sampled_from(PROBE_NAMES))
@@ -260,7 +264,7 @@ def _st_stripe(draw):
             "dtype": "f4" if draw(st.integers(0, 4)) == 0 else "f8",
             "kk": None if lfp else _st_kk(draw, kf),
             "labels": _st_labels(draw, far=False, need3=False) if draw(st.integers(0, 2)) == 0 else None}
-    case["ns"] = _avoid_pow3(draw(st.integers(4000, 12000)), _kfilt_wins(case))
+    case["ns"] = _st_ns(draw, case)
     return case
 
 
@@ -282,7 +286,7 @@ def _st_spike(draw):
             "tmpl": draw(st.sampled_from(["ricker", "dgauss", "gauss"])),
             "sig": round(draw(st.one_of(st.sampled_from([1.5, 5.0]), st.floats(1.5, 5.0))), 3),
             "t0": round(draw(st.floats(0.3, 0.7)), 5), "bg_seed": draw(st.integers(0, 2 ** 31))}
-    case["ns"] = _avoid_pow3(draw(st.integers(4000, 12000)), _kfilt_wins(case))
+    case["ns"] = _st_ns(draw, case)
     return case
 
 
@@ -295,7 +299,7 @@ def _st_labels_case(draw):
             "comps": _st_comps(draw, lfp)[:2], "amp_uv": draw(st.sampled_from([0.0, 50.0, 500.0])),
             "bg_uv": draw(st.sampled_from([2.0, 5.0, 10.0])), "bg_seed": draw(st.integers(0, 2 ** 31)),
             "alt_seed": draw(st.integers(0, 2 ** 31)), "alt_gain": draw(st.sampled_from([0.0, 1.0, 30.0, 1000.0]))}
-    case["ns"] = _avoid_pow3(draw(st.integers(4000, 8000)), _kfilt_wins(case))
+    case["ns"] = draw(st.integers(4000, 8000))
     return case
 
 
@@ -352,7 +356,7 @@ def _st_coll(draw):
             s["ntr_pad"] = draw(st.integers(0, min(12, gmin)))
         if draw(st.integers(0, 2)) == 0:
             s["ntr_tap"] = draw(st.integers(0, 8))
-        if draw(st.booleans()):
+        if draw(st.integers(0, 2)) != 0:
             s["lagc"] = draw(st.sampled_from([None, 0, 0.5, 20 * si, 75 * si]))
         if draw(st.integers(0, 2)) != 0:
             k0 = draw(st.sampled_from([0.02, 0.05, 0.2])) / dx
@@ -361,7 +365,11 @@ def _st_coll(draw):
         if s.get("lagc"):
             wins.append(_ns_win(s["lagc"], si))
     case["s"] = s
-    case["ns"] = _avoid_pow3(ns, wins)
+    if draw(st.integers(0, 9)) == 0:   # batch length + AGC window == 3^k (odd FFT size in the gain convolution)
+        cand = [p - w for p in (243, 729) for w in wins if 48 <= p - w <= 700]
+        if cand:
+            ns = draw(st.sampled_from(cand))
+    case["ns"] = ns
     return case
 
 
@@ -376,7 +384,6 @@ def _st_agc(draw, tier):
         pow3 = True
     else:
         ns = draw(st.one_of(st.integers(8, 300), st.integers(8, 6000)))
-        ns = _avoid_pow3(ns, [ns_win])
         pow3 = False
     si = draw(st.sampled_from([1.0, 0.002, 1 / 30000, 1 / 2500]))
     # wl such that round(wl / si / 2) * 2 + 1 == ns_win, away from the rounding ties
@@ -444,18 +451,12 @@ def enum_cases(desc):
 # ------------------------------------------------------------------------------------------------
 # known findings (each key recognises exactly one diagnosed root cause)
 
-def _agc_pow3(case, f):
-    return (case.get("t") == "agc" and f.kind.startswith("C05.agc:crash:ValueError")
-            and (case["ns"] + _ns_win(case["wl"], case["si"])) in POW3)
-
-
 KNOWN = {
     "car_collection_operator": lambda case, f: f.kind == "C05.coll.car.operator_dropped",
     "kfilt_collection_lagc": lambda case, f: f.kind == "C05.coll.kfilt.lagc_dropped",
     "kfilt_collection_pad": lambda case, f: f.kind == "C05.coll.kfilt.pad_dropped",
     "fk_collection_btype": lambda case, f: f.kind == "C05.coll.fk.btype_dropped",
     "fk_collection_kfilt": lambda case, f: f.kind == "C05.coll.fk.kfilt_dropped",
-    "agc_pow3_convolve": _agc_pow3,
     "stripe_on_interpolated_channels": lambda case, f: f.kind == "C05.stripe_attenuation.interpolated",
 }
 
@@ -531,8 +532,12 @@ def _run_stripe(case, ctx):
         ctx.label("stripe_degenerate")
         return
     tag = "lfp" if lfp else ("kfilt" if case["kf"] else "car")
-    for chans, name, kind in ((good, "", "C05.stripe_attenuation" + (".lfp" if lfp else "")),
-                              (interp, "interpolated_", "C05.stripe_attenuation.interpolated")):
+    # channels labelled 1/2 are rebuilt from their neighbours before the spatial filter: what the repair leaves of the
+    # stripe (on the rebuilt channel and, through the k-filter, on its neighbours) is one root cause with its own kind
+    k_plain = "C05.stripe_attenuation" + (".lfp" if lfp else "")
+    k_rep = "C05.stripe_attenuation.interpolated"
+    for chans, name, kind in ((good, "with_repaired_neighbours_" if interp.size else "", k_rep if interp.size else k_plain),
+                              (interp, "repaired_", k_rep)):
         if chans.size == 0:
             continue
         rc = np.sqrt(np.mean(y[chans][:, sl] ** 2, axis=1))
@@ -544,7 +549,7 @@ def _run_stripe(case, ctx):
         ctx.check(att >= ATT_DB, kind,
                   lambda: f"common-mode stripe attenuated by only {att:.1f} dB on {name.replace('_', ' ')}channel "
                           f"{int(chans[int(np.argmax(rc))])} ({att_all:.1f} dB over all such channels), {tag}, probe "
-                          f"{case['probe']}")
+                          f"{case['probe']}, {int(interp.size)} channels labelled 1/2")
     if labels is not None:
         _check_outside(ctx, y, ref, shifts, labels)
 
